@@ -28,6 +28,20 @@ CONTRACTS.update({
     ("bigint::large_mul", "slice::get_unchecked"): "checked by GRD-stackvec",
 })
 
+# the bundled musl libm port (only compiled without `std`): not lexical's parsing logic
+for _fn, _cs, _why in (
+        ("libm::powd", "slice::get_unchecked", "bundled musl libm port: two-entry tables indexed by k in {0, 1} (value range)"),
+        ("libm::powf", "slice::get_unchecked", "bundled musl libm port: two-entry tables indexed by k in {0, 1} (value range)"),
+        ("libm::sqrtd", "sse2::_mm_set_sd", "SSE2 intrinsic, always available on x86_64"),
+        ("libm::sqrtd", "sse2::_mm_sqrt_pd", "SSE2 intrinsic, always available on x86_64"),
+        ("libm::sqrtd", "sse2::_mm_cvtsd_f64", "SSE2 intrinsic, always available on x86_64"),
+        ("libm::sqrtf", "sse::_mm_set_ss", "SSE intrinsic, always available on x86_64"),
+        ("libm::sqrtf", "sse::_mm_sqrt_ss", "SSE intrinsic, always available on x86_64"),
+        ("libm::sqrtf", "sse::_mm_cvtss_f32", "SSE intrinsic, always available on x86_64"),
+        ("libm::floord", "ptr::read_volatile", "force_eval!: volatile read of a local"),
+        ("libm::floorf", "ptr::read_volatile", "force_eval!: volatile read of a local")):
+    CONTRACTS[(_fn, _cs)] = _why
+
 # explicit panic sites reachable from a parse entry point: (function suffix, kind) -> (max count, reason)
 PANICS = {
     ("MulAssign<&[u64]>>::mul_assign", "unwrap"): (1, "large_mul overflow of a Bigfloat: operands bounded by BIGFLOAT_BITS"),
